@@ -86,8 +86,8 @@ pub fn history_props(id: &str) -> Option<HistoryProp> {
             tiers: vec![HistoryTier {
                 label: "C03-small",
                 gen: GenCfg { n_trees: vec![(2, vec![None]), (6, vec![Some(2), Some(3), Some(4)]), (1, vec![Some(1), Some(9)])], rounds: (1, 3), ..GenCfg::small() },
-                quick: 1600,
-                thorough: 40_000,
+                quick: 10_000,
+                thorough: 80_000,
             }],
             nontrivial: |_h, st| st.get("multi_tree") > 0 && st.get("has_split") > 0 && st.get("budget_truncated") > 0,
             assumptions: base_assume,
@@ -154,15 +154,15 @@ pub fn history_props(id: &str) -> Option<HistoryProp> {
                    an incremental build",
             cfg: RunCfg { structure: true, search_exact: true, build_must_succeed: true, ..Default::default() },
             tiers: vec![
-                HistoryTier { label: "C14-mem", gen: gen_c14(), quick: 700, thorough: 20_000 },
+                HistoryTier { label: "C14-mem", gen: gen_c14(), quick: 450, thorough: 12_000 },
                 HistoryTier {
                     label: "C14-small",
                     gen: GenCfg {
                         avail_mem: vec![(3, vec![None]), (2, vec![Some(0), Some(1), Some(4096), Some(3 * 4096), Some(40960), Some(1 << 40)])],
                         ..GenCfg::small()
                     },
-                    quick: 2500,
-                    thorough: 60_000,
+                    quick: 2000,
+                    thorough: 40_000,
                 },
             ],
             nontrivial: |h, st| {
@@ -397,7 +397,7 @@ pub fn script_props(id: &str) -> Option<ScriptProp> {
                    UnmatchingDistance accordingly, inside the write txn and from a fresh read txn after commit/abort. Non-trivial = \
                    a build succeeded and (a no-op directly follows a build, or a stale-making op precedes a later commit)",
             cfg: ScriptCfg { staleness: true, ..Default::default() },
-            tiers: vec![ScriptTier { label: "C06-script", gen: script_gen_base(), quick: 12_000, thorough: 300_000 }],
+            tiers: vec![ScriptTier { label: "C06-script", gen: script_gen_base(), quick: 40_000, thorough: 400_000 }],
             nontrivial: c06_nontrivial,
             assumptions: base_assume,
         }),
@@ -424,8 +424,8 @@ pub fn script_props(id: &str) -> Option<ScriptProp> {
                     edge_ids: true,
                     ..script_gen_base()
                 },
-                quick: 5000,
-                thorough: 100_000,
+                quick: 30_000,
+                thorough: 300_000,
             }],
             nontrivial: |_s, st| st.get("passive_adjacent_built_vs_heavy_op") > 0,
             assumptions: base_assume,
@@ -460,8 +460,8 @@ pub fn script_props(id: &str) -> Option<ScriptProp> {
                     edge_ids: true,
                     ..script_gen_base()
                 },
-                quick: 3000,
-                thorough: 60_000,
+                quick: 30_000,
+                thorough: 300_000,
             }],
             nontrivial: |_s, st| st.get("bq_to_float_unaligned_dims") > 0 || st.get("metric_change_with_pending_updates") > 0,
             assumptions: base_assume,
@@ -486,8 +486,8 @@ pub fn script_props(id: &str) -> Option<ScriptProp> {
                     dims: vec![1, 2, 3, 5, 64],
                     ..script_gen_base()
                 },
-                quick: 8000,
-                thorough: 120_000,
+                quick: 30_000,
+                thorough: 300_000,
             }],
             nontrivial: |_s, st| st.get("rejected_on_clean_built") > 0,
             assumptions: base_assume,
@@ -500,10 +500,96 @@ pub fn render_script(s: &ScriptSpec) -> Value {
     json!(s.render())
 }
 
+/// C06: every sequence of up to `maxlen` steps over 13 fixed operation kinds on one index.
+fn c06_exhaustive(report: &mut Report, maxlen: usize, cfg: &ScriptCfg) -> Result<(), (Fail, ScriptSpec)> {
+    use crate::script::ScriptIndex;
+    let kinds: Vec<Step> = vec![
+        Step::Add { ix: 0, slot: 0, vseed: 1 },
+        Step::Add { ix: 0, slot: 40000, vseed: 2 },
+        Step::AppendHigh { ix: 0, bump: 0, vseed: 3 },
+        Step::Append { ix: 0, slot: 0, vseed: 4 },
+        Step::Del { ix: 0, slot: 0 },
+        Step::DelAbsent { ix: 0 },
+        Step::AddBadLen { ix: 0, slot: 0, len: 1 },
+        Step::Clear { ix: 0 },
+        Step::Build { ix: 0, n_trees: None, split_after: Some(1), rng_seed: 7 },
+        Step::BuildCancelled { ix: 0, k: 2, rng_seed: 7 },
+        Step::ChangeMetric { ix: 0, to: Metric::Cosine },
+        Step::Commit,
+        Step::Abort,
+    ];
+    let index = ScriptIndex { spec: IndexSpec { index: 5, dims: 2, class: ValueClass::Grid, ids: vec![1, 2, 3] }, metric: Metric::Euclidean };
+    let mut seqs: Vec<Vec<usize>> = vec![vec![]];
+    let mut all: Vec<Vec<usize>> = Vec::new();
+    for _ in 0..maxlen {
+        let mut next = Vec::new();
+        for s in &seqs {
+            for k in 0..kinds.len() {
+                let mut t = s.clone();
+                t.push(k);
+                next.push(t);
+            }
+        }
+        all.extend(next.iter().cloned());
+        seqs = next;
+    }
+    let failure: std::sync::Mutex<Option<(Fail, ScriptSpec)>> = std::sync::Mutex::new(None);
+    let counter = std::sync::atomic::AtomicUsize::new(0);
+    let nontrivial = std::sync::atomic::AtomicU64::new(0);
+    std::thread::scope(|sc| {
+        for _ in 0..crate::runner::workers() {
+            sc.spawn(|| loop {
+                let i = counter.fetch_add(1, std::sync::atomic::Ordering::Relaxed);
+                if i >= all.len() || failure.lock().unwrap().is_some() {
+                    break;
+                }
+                let spec = ScriptSpec { indexes: vec![index.clone()], steps: all[i].iter().map(|k| kinds[*k].clone()).collect() };
+                let mut st = CaseStats::default();
+                match exec_script(&spec, cfg, &mut st) {
+                    Ok(()) | Err(Fail::Discard(_)) => {
+                        if c06_nontrivial(&spec, &st) {
+                            nontrivial.fetch_add(1, std::sync::atomic::Ordering::Relaxed);
+                        }
+                    }
+                    Err(f) => {
+                        let mut g = failure.lock().unwrap();
+                        if g.is_none() {
+                            *g = Some((f, spec));
+                        }
+                    }
+                }
+            });
+        }
+    });
+    report.acc.evaluations += all.len() as u64;
+    for k in 0..nontrivial.load(std::sync::atomic::Ordering::Relaxed) {
+        report.acc.nontrivial_hashes.insert(0x0C06_0000_0000_0000 | k);
+    }
+    report.acc.extra.insert(
+        "exhaustive_subspaces".into(),
+        json!([format!("all {} sequences of length <= {maxlen} over 13 operation kinds on one index (from an empty database)", all.len())]),
+    );
+    match failure.into_inner().unwrap() {
+        Some(x) => Err(x),
+        None => Ok(()),
+    }
+}
+
 pub fn run_script_prop(p: ScriptProp, tier: Tier) -> i32 {
     let mut report = Report::new(p.id, tier, p.level, p.rule);
     report.assumptions = p.assumptions.iter().map(|s| s.to_string()).collect();
     let nontrivial = p.nontrivial;
+    if p.id == "C06" {
+        if let Err((f, spec)) = c06_exhaustive(&mut report, tier.pick(3, 4), &p.cfg) {
+            return match f {
+                Fail::Violation(v) => report.finish(Outcome::Violation(crate::runner::Failure {
+                    violation: v,
+                    replay: json!({"engine": "C06-script", "case": serde_json::to_value(&spec).unwrap()}),
+                })),
+                Fail::Infra(m) | Fail::Discard(m) => report.finish(Outcome::Infra(m)),
+            };
+        }
+    }
     for t in &p.tiers {
         let cases = tier.pick(t.quick, t.thorough);
         let cfg = p.cfg.clone();
